@@ -74,6 +74,26 @@ Theorem C04_validation_failure : forall ord (s : doc) (u0 : list action) (es : l
   rollback ord (length u0) st = Some s.
 Proof. exact rollback_validation_failure. Qed.
 
+(* REPAIRED variant of BulkUpdateRecord (notes/proposed_fixes/C04-BulkUpdateRecord-undo-first.diff: columns resolved and
+   undo appended before the first cell is written): for every document, every action argument and EVERY crash
+   point strictly inside it, replaying the already appended undo action gives the document back.  (Proved for this
+   one repaired action; the other refuted crash points have no small repair: see the report.) *)
+Theorem C04_repaired_update_rolled_back : forall ord d t rows vals u p l rest st',
+  wf d -> update_repaired d t rows vals = l ++ rest -> l <> [] ->
+  exec_all (MState d u p None) l = Some st' ->
+  exists a, ms_undo st' = u ++ [a] /\ ms_pending st' = p /\ ms_saved st' = None /\
+            apply_doc ord (ms_doc st') a = Some d.
+Proof. exact update_repaired_rolled_back. Qed.
+
+Example C04_repaired_nonvacuous :
+  exists l rest, update_repaired w_doc T [1; 2] [(A, [10; 20]); (C, [5; 6])] = l ++ rest /\ length l = 3%nat /\
+    is_Some (exec_all (MState w_doc [] [] None) l).
+Proof.
+  exists (take 3 (update_repaired w_doc T [1; 2] [(A, [10; 20]); (C, [5; 6])])),
+         (drop 3 (update_repaired w_doc T [1; 2] [(A, [10; 20]); (C, [5; 6])])).
+  split; [symmetry; apply take_drop|]. split; [vm_compute; reflexivity|]. vm_compute. eexists. reflexivity.
+Qed.
+
 (* every completed doc action keeps the document well-formed and is reverted by the undo it appended *)
 Theorem C04_action_undone : forall ord d a u p st',
   wf d -> no_replace a -> exec_all (MState d u p None) (doc_steps ord d a) = Some st' ->
